@@ -41,7 +41,7 @@ def weight(case, cap):
     return states * per
 
 
-def run_equiv(cases, cap, jobs=None, timeout=7200, tag="eq"):
+def run_equiv(cases, cap, jobs=None, timeout=7200, tag="eq", depthcheck=True):
     """cases: list of {id, orig, opt} (projected instruction lists).  Returns (verdicts, stats):
     verdicts[id] = list of [grid index, clause] for every non-ok grid state."""
     if not cases:
@@ -55,7 +55,7 @@ def run_equiv(cases, cap, jobs=None, timeout=7200, tag="eq"):
     envs = []
     for i, sh in enumerate(shards):
         p = os.path.join(common.workdir(), "%s_cases_%d.json" % (tag, i))
-        common.write_json(p, {"cap": cap, "seed": common.seed(), "cases": sh})
+        common.write_json(p, {"cap": cap, "seed": common.seed(), "depthcheck": bool(depthcheck), "cases": sh})
         envs.append({"CASES": p})
     results = common.run_tlc_shards("EVMEquiv", "EVMEquiv.cfg", envs, timeout=timeout, jobs=jobs, tag=tag)
     verdicts = {}
